@@ -365,8 +365,11 @@ Fixpoint tbl_assoc (t : list (bytes * bytes)) (x : bytes) : option bytes :=
   | [] => None
   | (a, b) :: r => if Bytes.bytes_eqb x a then Some b else tbl_assoc r x
   end.
+(* crypto.normalize_key over an abstract SHA-256: a key of exactly 32 bytes is used as is, any other is hashed *)
+Definition normalize_key_with (sha256 : bytes -> bytes) (k : bytes) : bytes :=
+  if blen k =? KEY_LEN then k else sha256 k.
 Definition tbl_normalize (sha : list (bytes * bytes)) (k : bytes) : bytes :=
-  if blen k =? KEY_LEN then k else match tbl_assoc sha k with Some d => d | None => [] end.
+  normalize_key_with (fun x => match tbl_assoc sha x with Some d => d | None => [] end) k.
 Fixpoint tbl_has (t : list (bytes * bytes)) (cid ik : bytes) : bool :=
   match t with
   | [] => false
